@@ -212,7 +212,7 @@ def C02(ctx):
                 "noisy / foreign, then 2-3 random call histories of 20-200 calls over the packet-decode typestate (headerin with any packet, idheader, packet_blocksize, "
                 "halfrate (before set-up and under a live decoder), synthesis_init incl. repeated after failure, synthesis / trackonly with wild b_o_s/e_o_s/granulepos/packetno, blockin, pcmout, read(any n), lapout, "
                 "restart, clears in any state, repeated clears, re-init); plus (mode c02f) model set-ups with 1-2 header fields forced to boundary values (64 field sites x "
-                "{0,1,max,max-1,count,count+-1,sign bit,random}; codebook entries up to 2^24-1, dim 0/1/65535) re-packed bit-exactly; evaluation = one library call with its "
+                "{0,1,max,max-1,count,count+-1,sign bit,random}; codebook entries up to 2^24-1, dim 0/1/65535) re-packed bit-exactly; plus (mode c02q) lattice codebooks whose entry count is at or next to a perfect power, asked of the library's size routine for every such (dim, entries) and packed into setup headers; evaluation = one library call with its "
                 "return value checked against the documented codes; ASan/UBSan/LSan, the CPU budget and a 64 MiB stack judge the sanitized runs; the same workloads are repeated on the uninstrumented build under the default 8 MiB stack; bucket = "
                 "(source, mutated header, mutation kind, audio mode) | field class")
     ctx.assumptions = TRUST_COMMON + ["blockin is called only directly after a successful synthesis/trackonly on that block; lapout only in the "
@@ -220,6 +220,9 @@ def C02(ctx):
                                       "allocation failure is not injected (the library checks no malloc result and no property asks it to)"]
     ctx.run("san", "pktmon", "c02", _n(ctx.tier, 6400, 120000), extra_src=SPEC, stack_mb=64)
     ctx.run("san", "pktmon", "c02f", _n(ctx.tier, 6400, 120000), extra_src=SPEC, stack_mb=64)
+    # lattice size law (round 8): the library's value count for every (dim, k^dim-2..k^dim+2) below 2^24 against the model's integer answer, and such books inside
+    # real setup headers; a correction loop that does not terminate is a CPU-budget overrun of that case
+    ctx.run("san", "pktmon", "c02q", _n(ctx.tier, 104, 520), extra_src=SPEC, stack_mb=64, env_extra={"VH_CPU": "20"})
     # "within the default thread stack": the same workloads on the uninstrumented build under an 8 MiB stack (ASan inflates frames, so the
     # sanitized runs get 64 MiB); a crash here is a stack (or other) fault the sanitized run could not attribute to the stack limit
     ctx.run("plain", "pktmon", "c02f", _n(ctx.tier, 3200, 60000), extra_src=SPEC, stack_mb=8)
@@ -252,9 +255,14 @@ def C13(ctx):
                 "ov_clear; bucket = scenario class")
     ctx.assumptions = TRUST_COMMON + ["live-byte ledger = __sanitizer_get_current_allocated_bytes() of the ASan runtime (libogg is linked statically, so its allocations are counted too)"]
     ctx.run("san", "pktmon", "c13", _n(ctx.tier, 9000, 90000), extra_src=SPEC)
+    # "opens that fail and seeks that fail" by enumeration (round 8): the callback-fault plans of the C12 driver - a fault at every read/seek/tell invocation index of an
+    # open or of a seek scenario, on streams whose links carry their headers on two, three or many pages - run here under LeakSanitizer; what gates here is the allocation
+    # ledger (leak, double free, close count), the recovery and error-surfacing clauses stay with C12
+    ctx.run("san", "vffault", "c12", _n(ctx.tier, 544, 6800), extra_src=SPEC, env_extra={"VH_CPU": "120"}, gate=("C13",))
     if ctx.tier == "thorough":
         ctx.rule += " | thorough only: libFuzzer with LeakSanitizer after every unit over both targets of harness/fuzzmon.c (only leak reports gate here; other reports belong to C02/C03)"
         ctx.fuzz("both", jobs=16, runs=25000, leaks=True, only_leaks=True)
+    ctx.rule += " | plus the C12 driver's fault plans (a one-shot or persistent read error / empty read / one-byte read / refused seek / refused tell at every callback invocation index of an open or a seek scenario; header pages 2, 3 or many per link) under LeakSanitizer: only the ledger gates here"
     return ctx.finish(min_evals=3000, min_buckets=100)
 
 
